@@ -29,7 +29,7 @@ ASSUMPTIONS = [
     "tolerance (1e-6 + 4e-9/(1-xi)) of the absolute-value sum of the terms: the integrals are quadratures over the same interpolant, "
     "yadism cuts 1e-10 off the ends of [xi,1] (measured agreement <=1.2e-7, formula errors are >=1e-3)",
 ]
-BUDGET = {"quick": {"examples": 2400, "wall": 420, "min_evaluations": 400}, "thorough": {"examples": 16000, "wall": 2400, "min_evaluations": 4000}}
+BUDGET = {"quick": {"examples": 2400, "wall": 420, "min_evaluations": 400}, "thorough": {"examples": 60000, "wall": 2400, "min_evaluations": 4000}}
 MANDATORY = {
     t: ["nontrivial", "mode:1", "mode:2", "mode:3", "kind:F2", "kind:FL", "kind:F3", "kind:g1", "clause:formula", "clause:M=0", "clause:xi-below-grid", "pto:1", "x:node"]
     for t in ("quick", "thorough")
